@@ -55,7 +55,7 @@ Theorem C17_resume_generic_partial :
   forall (state gen : Type) (stp : gen -> state -> state) (sv : state -> list Z) (rs : list Z -> option state),
   (forall s, rs (sv s) = Some s) ->
   forall g1 g2 s, option_map (run stp g2) (rs (sv (run stp g1 s))) = Some (run stp (g1 ++ g2) s).
-Proof. intros state gen stp sv rs H g1 g2 s. rewrite H, run_app. reflexivity. Qed.
+Proof. exact p_resume_generic_partial. Qed.
 Print Assumptions C17_resume_generic_partial.
 
 (* --- map-schedule independence --------------------------------------------------------------------------- *)
@@ -69,7 +69,7 @@ Print Assumptions C17_pmap_schedule_independent_partial.
 Theorem C17_pmap_observed_order_partial :
   forall (A B : Type) (f : A -> B) (sched : list nat) (xs : list A),
   is_perm_of_seq sched (length xs) = true -> pmap sched f xs = map (fun x => Some (f x)) xs.
-Proof. intros A B f sched xs H. apply pmap_schedule_independent, is_perm_of_seq_sound, H. Qed.
+Proof. exact p_pmap_observed_order_partial. Qed.
 Print Assumptions C17_pmap_observed_order_partial.
 
 (* any number of workers, any task durations *)
@@ -77,21 +77,19 @@ Theorem C17_pmap_pool_partial :
   forall (A B : Type) (f : A -> B) (w : nat) (delays : list Z) (xs : list A),
   length delays = length xs ->
   pmap (completion_order w delays) f xs = map (fun x => Some (f x)) xs.
-Proof.
-  intros A B f w delays xs L. apply pmap_schedule_independent. rewrite <- L. apply completion_order_perm.
-Qed.
+Proof. exact p_pmap_pool_partial. Qed.
 Print Assumptions C17_pmap_pool_partial.
 
 (* whole runs: any two fair schedules (each generation's completion order a permutation of its tasks) *)
 Theorem C17_run_schedule_independent_partial : forall P sch1 sch2 gs s,
   fair sch1 -> fair sch2 ->
   run (step P sch1) gs s = run (step P sch2) gs s /\ trace (step P sch1) gs s = trace (step P sch2) gs s.
-Proof. intros; split; [apply run_schedule_independent|apply trace_schedule_independent]; assumption. Qed.
+Proof. exact p_run_schedule_independent_partial. Qed.
 Print Assumptions C17_run_schedule_independent_partial.
 
 Theorem C17_run_pool_partial : forall P (w : Z -> nat) (delays : Z -> nat -> list Z) gs s,
   run (step P (pool_schedule w delays)) gs s = run (step P serial) gs s.
-Proof. intros. apply run_schedule_independent; [apply pool_schedule_fair|apply serial_fair]. Qed.
+Proof. exact p_run_pool_partial. Qed.
 Print Assumptions C17_run_pool_partial.
 
 (* --- determinism: the saved record is all a run depends on ------------------------------------------------ *)
@@ -103,7 +101,7 @@ Print Assumptions C17_run_deterministic_partial.
 (* --- generator accounting of the modelled GA --------------------------------------------------------------- *)
 Theorem C17_step_generators_partial : forall P sch op s,
   st_cur s <= st_cur (step P sch op s) /\ st_npcur (step P sch op s) = st_npcur s.
-Proof. intros; split; [apply step_cursor_monotone|apply step_np]. Qed.
+Proof. exact p_step_generators_partial. Qed.
 Print Assumptions C17_step_generators_partial.
 
 (* --- at every checkpoint the hall of fame's key list is the reversed fitness list of its items: the two pickled
@@ -111,7 +109,7 @@ Print Assumptions C17_step_generators_partial.
 Theorem C17_hof_keys_consistent_partial : forall P sch gs pop0 hofmax,
   let s := run (step P sch) gs (init_state pop0 hofmax) in
   hof_keys (st_hof s) = rev (map fitw (hof_items (st_hof s))).
-Proof. intros. apply run_hof_consistent, init_hof_consistent. Qed.
+Proof. exact p_hof_keys_consistent_partial. Qed.
 Print Assumptions C17_hof_keys_consistent_partial.
 
 (* --- the logbook at every checkpoint: one record per generation operation, every record streamed (buffindex =
@@ -121,16 +119,7 @@ Theorem C17_logbook_aligned_partial : forall P sch gs pop0 hofmax,
   length (lb_recs lg) = length gs /\
   lb_buff lg = Z.of_nat (length gs) /\
   Forall (fun c => length (sl_recs (snd c)) = length gs /\ sl_buff (snd c) = 0) (lb_chapters lg).
-Proof.
-  intros P sch gs pop0 hofmax lg.
-  pose proof (run_log_count P sch gs (init_state pop0 hofmax)) as N. cbn [init_state st_log lb_recs length] in N.
-  rewrite Nat.add_0_r in N. fold lg in N.
-  destruct (run_log_aligned P sch gs _ (init_log_aligned pop0 hofmax)) as [B [[Hc _]|[a [b [Hc [La [Lb [Ba Bb]]]]]]]];
-    fold lg in B, Hc.
-  - split; [exact N|]. split; [rewrite B; unfold zlen; rewrite N; reflexivity|]. rewrite Hc. constructor.
-  - fold lg in La, Lb. split; [exact N|]. split; [rewrite B; unfold zlen; rewrite N; reflexivity|].
-    rewrite Hc. repeat constructor; cbn [snd]; congruence.
-Qed.
+Proof. exact p_logbook_aligned_partial. Qed.
 Print Assumptions C17_logbook_aligned_partial.
 
 (* --- non-vacuity ---------------------------------------------------------------------------------------------- *)
@@ -170,8 +159,5 @@ Theorem C17_completion_order_gather_refuted :
   exists (s1 s2 : list nat) (xs : list Z),
     Permutation s1 (seq 0 (length xs)) /\ Permutation s2 (seq 0 (length xs)) /\
     pmap_completion_order s1 (fun x => x) xs <> pmap_completion_order s2 (fun x => x) xs.
-Proof.
-  exists [0; 1]%nat, [1; 0]%nat, [10; 20]. split; [apply Permutation_refl|]. split; [apply perm_swap|].
-  vm_compute. discriminate.
-Qed.
+Proof. exact p_completion_order_gather_refuted. Qed.
 Print Assumptions C17_completion_order_gather_refuted.
